@@ -155,6 +155,7 @@ def run(ck):
     ck.source_tie("parser")
     ck.source_tie("expand")
     ck.source_tie("eval")
+    ck.source_tie("smallnat")
     ck.hygiene()
     ck.ocaml_build()
     ck.harness_build(["c09"])
